@@ -8,10 +8,13 @@ package syncer
 import (
 	"encoding/json"
 	"fmt"
+	"os"
+	"path/filepath"
 	"strings"
 	"testing"
 	"time"
 
+	"github.com/mgtv-tech/redis-GunYu/config"
 	"github.com/mgtv-tech/redis-GunYu/verifshim/mc"
 	"github.com/mgtv-tech/redis-GunYu/verifshim/redisd"
 	"github.com/mgtv-tech/redis-GunYu/verifshim/ref"
@@ -30,7 +33,82 @@ type c20Scenario struct {
 	rdbScenario
 	Path string   `json:"path"` // restore | expanded | bulk (expansion forced by MaxProtoBulkLen) | chunked
 	Pre  []c20Pre `json:"pre"`
+	// configuration family: the policy is written as text (Spell) into a configuration file, loaded by the
+	// tool's own loader (Via "yaml" = config.InitSyncerConfig, "rdbcmd" = config.InitRdbConfig) and handed to
+	// the output the way syncer.newOutput / cmd/rdb.go do; Cfg.Policy is not used then
+	Via   string `json:"via,omitempty"`
+	Spell string `json:"spell,omitempty"`
 }
+
+// c20Intended lists the policies a spelling may legitimately stand for. config.go lower-cases the value and
+// replaces anything that is not replace / ignore / error by replace, so case variants mean the policy they
+// spell and the empty or an unknown value means replace; a value with a surrounding blank is, as the code
+// stands, an unknown value (replace), but reading it as the trimmed policy is accepted as well. reject says
+// whether refusing the whole configuration would be an acceptable answer to this spelling.
+func c20Intended(spell string) (policies []string, reject bool) {
+	known := func(s string) bool { return s == "replace" || s == "ignore" || s == "error" }
+	low := strings.ToLower(spell)
+	if known(low) {
+		return []string{low}, false
+	}
+	if spell == "" {
+		return []string{"replace"}, false
+	}
+	if t := strings.TrimSpace(low); known(t) {
+		if t == "replace" {
+			return []string{"replace"}, true
+		}
+		return []string{"replace", t}, true
+	}
+	return []string{"replace"}, true
+}
+
+// c20LoadPolicy writes the configuration text, runs the tool's loader and returns the value the tool would
+// put into RedisOutputConfig.KeyExists.
+func c20LoadPolicy(via, spell string) (string, error) {
+	dir := os.Getenv("VERIF_SCRATCH")
+	if dir == "" {
+		dir = os.TempDir()
+	}
+	path := filepath.Join(dir, "c20.yaml")
+	quoted := fmt.Sprintf("%q", spell)
+	var text string
+	switch via {
+	case "yaml":
+		text = "input:\n  redis:\n    addresses: [127.0.0.1:16300]\n    type: standalone\n" +
+			"channel:\n  storer:\n    dirPath: /nonexistent/verif\n" +
+			"output:\n  redis:\n    addresses: [127.0.0.1:6707]\n    type: standalone\n" +
+			"  replay:\n    resumeFromBreakPoint: false\n    keyExists: " + quoted + "\n"
+	case "rdbcmd":
+		text = "action: load\nrdbPath: /nonexistent/verif.rdb\nload:\n  redis:\n    addresses: [127.0.0.1:6707]\n    type: standalone\n" +
+			"  replay:\n    keyExists: " + quoted + "\n"
+	default:
+		return "", fmt.Errorf("unknown configuration path %q", via)
+	}
+	if err := os.WriteFile(path, []byte(text), 0o600); err != nil {
+		return "", err
+	}
+	switch via {
+	case "yaml":
+		*config.GetSyncerConfig() = config.SyncConfig{} // a fresh process has a zero configuration
+		defer func() { *config.GetSyncerConfig() = config.SyncConfig{} }()
+		if err := config.InitSyncerConfig(path); err != nil {
+			return "", c20Rejected{err}
+		}
+		return config.GetSyncerConfig().Output.Replay.KeyExists, nil // syncer.newOutput: KeyExists: cfg.Replay.KeyExists
+	default:
+		*config.GetRdbCmdConfig() = config.RdbCmdConfig{}
+		defer func() { *config.GetRdbCmdConfig() = config.RdbCmdConfig{} }()
+		if err := config.InitRdbConfig(path); err != nil {
+			return "", c20Rejected{err}
+		}
+		return config.GetRdbCmdConfig().Load.Replay.KeyExists, nil // cmd/rdb.go: KeyExists: cfg.Replay.KeyExists
+	}
+}
+
+type c20Rejected struct{ err error }
+
+func (r c20Rejected) Error() string { return "configuration rejected: " + r.err.Error() }
 
 const c20Bystander = "bystander" // a target key the snapshot does not mention
 
@@ -92,6 +170,24 @@ func c20Writes(log []*redisd.Req, db int, key string) []string {
 
 func c20Exec(t *testing.T, scn c20Scenario, ch *mc.Chooser) mc.Result {
 	var res mc.Result
+	var candidates []string
+	if scn.Via != "" {
+		var mayReject bool
+		candidates, mayReject = c20Intended(scn.Spell)
+		got, err := c20LoadPolicy(scn.Via, scn.Spell)
+		if err != nil {
+			if _, rejected := err.(c20Rejected); rejected {
+				if mayReject {
+					r := mc.OK(mc.Hash("rejected", scn.Via, scn.Spell), true, 0)
+					r.Detail = "config-rejected"
+					return r
+				}
+				return mc.Violation("the loader refuses a configuration whose keyExists value is a valid policy", "C20:config:rejected", map[string]interface{}{"spelling": scn.Spell, "error": err.Error()})
+			}
+			return mc.Result{Verdict: "machinery", Clause: "configuration family: " + err.Error()}
+		}
+		scn.Cfg.PolicyVerbatim = &got
+	}
 	msg := bubble(t, func() {
 		time.Sleep(1234567 * time.Microsecond)
 		now := time.Now().UnixMilli()
@@ -118,7 +214,32 @@ func c20Exec(t *testing.T, scn c20Scenario, ch *mc.Chooser) mc.Result {
 			}
 		}}
 		out := rdbRun(scn.rdbScenario, built, ch, hooks)
-		res = c20Oracle(scn, built, out, olds, bystander)
+		if scn.Via == "" {
+			res = c20Oracle(scn, built, out, olds, bystander)
+		} else {
+			// the execution has to satisfy the oracle of one of the policies the spelling may stand for
+			for i, pol := range candidates {
+				s2 := scn
+				s2.Cfg.Policy = pol
+				r := c20Oracle(s2, built, out, olds, bystander)
+				if i == 0 || r.Verdict != "violation" {
+					res = r
+				}
+				if r.Verdict != "violation" {
+					break
+				}
+			}
+			if res.Verdict == "violation" {
+				parts := strings.Split(res.Sig, ":")
+				mode := "plain"
+				if scn.Cfg.Bisync {
+					mode = "bisync"
+				}
+				res.Sig = "C20:config-spelling:" + mode
+				res.Clause = fmt.Sprintf("keyExists written as %q (loaded as %q) does not behave like %v: %s", scn.Spell, *scn.Cfg.PolicyVerbatim, candidates, res.Clause)
+				_ = parts
+			}
+		}
 		out.Srv.KillConns()
 	})
 	if msg != "" {
@@ -364,6 +485,41 @@ func c20Enumerate(tier string, f func(c20Scenario)) {
 		}
 		emitKey(c20Subject{"chunk/h/4", ref.RDBEnc{Kind: "table"}, 9}, "chunked", 64, key)
 	}
+	// configuration family: the policy as a user writes it, through the tool's own configuration loader
+	var spells []string
+	for _, p := range []string{"replace", "ignore", "error"} {
+		spells = append(spells, p, strings.ToUpper(p[:1])+p[1:], strings.ToUpper(p), " "+p, p+" ")
+	}
+	spells = append(spells, "", "bogus")
+	for _, via := range []string{"yaml", "rdbcmd"} {
+		for _, spell := range spells {
+			for _, sp := range []prior{{"same", false}, {"other", true}} {
+				for _, bi := range []bool{false, true} {
+					if bi && via == "rdbcmd" {
+						continue // the rdb command has no bidirectional mode
+					}
+					type sj struct {
+						sub   c20Subject
+						path  string
+						chunk int
+					}
+					var sjs []sj
+					for _, sub := range []c20Subject{{"string/short", ref.RDBEnc{Kind: "raw"}, 9}, {"hash/small", ref.RDBEnc{Kind: "listpack"}, 10}, {"list/small", ref.RDBEnc{Kind: "quicklist2", Node: 2}, 10}} {
+						sjs = append(sjs, sj{sub, "restore", 0}, sj{sub, "expanded", 0})
+					}
+					sjs = append(sjs, sj{c20Subject{"chunk/h/4", ref.RDBEnc{Kind: "table"}, 9}, "chunked", 64})
+					for _, x := range sjs {
+						cfg := rdbCfg{Restore: x.path != "expanded", BulkLen: c03BigBulk, Parallel: 1, DbMode: "id", Resume: true, Bisync: bi}
+						subj := rdbKeySpec{DB: 0, Key: "subj", Case: x.sub.Case, Enc: x.sub.Enc, Idle: -1, Freq: -1}
+						comp := rdbKeySpec{DB: 0, Key: "comp", Case: "string/short", Enc: ref.RDBEnc{Kind: "raw"}, Idle: -1, Freq: -1}
+						s := c20Scenario{rdbScenario: rdbScenario{Keys: []rdbKeySpec{subj, comp}, Version: x.sub.Version, Aux: true, Cfg: cfg, ChunkAt: x.chunk}, Path: x.path, Via: via, Spell: spell}
+						s.Pre = []c20Pre{{Key: "subj", Kind: sp.kind, TTL: sp.ttl}}
+						f(s)
+					}
+				}
+			}
+		}
+	}
 	chunks := []string{"chunk/h/4", "chunk/h/6"}
 	ths := []int{64}
 	if thorough {
@@ -399,7 +555,14 @@ func runC20(t *testing.T, rep *mc.Reporter) {
 		if idx%nshards != shard || budget.Expired() {
 			return
 		}
-		mc.RunScenario(rep, scn, 0, budget, func(ch *mc.Chooser) mc.Result { return c20Exec(t, scn, ch) })
+		mc.RunScenario(rep, scn, 0, budget, func(ch *mc.Chooser) mc.Result {
+			r := c20Exec(t, scn, ch)
+			if r.Verdict == "ok" && r.Detail == "config-rejected" {
+				rep.Count("configurations_rejected_by_the_loader", 1)
+				r.Detail = nil
+			}
+			return r
+		})
 	})
 	if budget.Expired() {
 		rep.Capped("deadline reached before all scenarios were explored")
